@@ -158,7 +158,8 @@ class Expr:
         if isinstance(self.value, str):
             return self.value
         if isinstance(self.value, int):
-            return str(self.value)
+            # str() of an int refuses more than sys.get_int_max_str_digits() digits; hex() has no such limit.
+            return str(self.value) if abs(self.value) < (1 << 4096) else hex(self.value)
         raise FlipJumpExprException(f'bad expression: {self.value} (of type {type(self.value)})')
 
     def __repr__(self) -> str:
